@@ -2,6 +2,7 @@
    Only statements; proofs live in theories/Misc. *)
 From BFG Require Import Base.Chars Shell.PosixQuote Shell.Sh Misc.Versions Misc.VersionsProofs Misc.PcFile Misc.PcFileProofs.
 From BFG Require Import Graph.LinkOrder Graph.LinkOrderProofs Misc.PcInfo Misc.PcInfoProofs.
+From BFG Require Misc.Options Misc.LibNameProofs.
 From Coq Require Import String.
 
 (* A total preorder of versions: [veqb] is identity of the printed form, [leb] the version order
@@ -232,6 +233,21 @@ Theorem C17_declared_options_rt : forall uw vars incdir dirfrag d,
   = Some (d_options d).
 Proof. exact declared_options_rt. Qed.
 Print Assumptions C17_declared_options_rt.
+
+(* the name a library is written under (-l<n>, n read off the file name by CcLinker._extract_lib_name) is the name the
+   script created it with - for EVERY name, also one with an extension-like infix (codec.amd64, q.a, x.so.1): the
+   consumer's linker resolves -l<n> in the -L directory to exactly the files lib<n>.so / lib<n>.a that were built *)
+Theorem C17_libname_created : forall n,
+  Options.extract_lib_name (LibNameProofs.shared_file_name n) = Some n /\ Options.extract_lib_name (LibNameProofs.static_file_name n) = Some n.
+Proof. intros n. exact (conj (LibNameProofs.libname_shared n) (LibNameProofs.libname_static n)). Qed.
+Print Assumptions C17_libname_created.
+
+(* hence two libraries are never written under one name: a sibling with a shorter name cannot take the other's place *)
+Theorem C17_libname_injective : forall n m,
+  (Options.extract_lib_name (LibNameProofs.shared_file_name n) = Options.extract_lib_name (LibNameProofs.shared_file_name m) -> n = m) /\
+  (Options.extract_lib_name (LibNameProofs.static_file_name n) = Options.extract_lib_name (LibNameProofs.static_file_name m) -> n = m).
+Proof. intros n m. exact (conj (LibNameProofs.libname_shared_injective n m) (LibNameProofs.libname_static_injective n m)). Qed.
+Print Assumptions C17_libname_injective.
 
 (* non-vacuity: install(h0, l0, l1); pkg_config(auto_fill, libs=[]); pkg_config(auto_fill, includes=[]);
    pkg_config(auto_fill); pkg_config(libs=[l2]) - the explicit empty lists stay empty, None is filled with
